@@ -29,6 +29,7 @@ type c10Case struct {
 	Spell   []string          `json:"spell"`   // per argument: "rel", "dot", "abs"
 	Procs   int               `json:"procs"`   // GOMAXPROCS
 	Repeats int               `json:"repeats"` // how often the together-run is repeated
+	Ignore  []string          `json:"ignore,omitempty"` // -ignore patterns of the invocation
 }
 
 func (c *c10Case) materialise() *world.World {
@@ -120,7 +121,7 @@ func checkIsolation(c *c10Case) (key, msg string, stats map[string]int) {
 		var pan any
 		func() {
 			defer func() { pan = recover() }()
-			l, _ := al.NewLinter(&bytes.Buffer{}, &al.LinterOptions{WorkingDir: cwd})
+			l, _ := al.NewLinter(&bytes.Buffer{}, &al.LinterOptions{WorkingDir: cwd, IgnorePatterns: c.Ignore})
 			errs, err = l.LintFile(spellPath(i), nil)
 		}()
 		if pan != nil || err != nil {
@@ -144,7 +145,7 @@ func checkIsolation(c *c10Case) (key, msg string, stats map[string]int) {
 		var pan any
 		func() {
 			defer func() { pan = recover() }()
-			l, _ := al.NewLinter(&bytes.Buffer{}, &al.LinterOptions{WorkingDir: cwd})
+			l, _ := al.NewLinter(&bytes.Buffer{}, &al.LinterOptions{WorkingDir: cwd, IgnorePatterns: c.Ignore})
 			var paths []string
 			for i := range c.Args {
 				paths = append(paths, spellPath(i))
@@ -312,7 +313,16 @@ func genC10World(rt *rapid.T) (*c10Case, []string) {
 		R := c10Tag(repo)
 		hasConfig := rapid.IntRange(0, 3).Draw(rt, "hascfg") > 0
 		if hasConfig {
-			c.Files[repo+"/.github/actionlint.yaml"] = fmt.Sprintf("self-hosted-runner:\n  labels:\n    - lab-%s\n    - zeta\n    - alpha\nconfig-variables:\n  - VAR_%s\n  - ZED\n  - ABLE\n", strings.ReplaceAll(repo, "/", "-"), R)
+			cfg := fmt.Sprintf("self-hosted-runner:\n  labels:\n    - lab-%s\n    - zeta\n    - alpha\nconfig-variables:\n  - VAR_%s\n  - ZED\n  - ABLE\n", strings.ReplaceAll(repo, "/", "-"), R)
+			// per-path ignore patterns: every repository ignores another kind of message
+			if rapid.Bool().Draw(rt, "pathsignore") {
+				pats := rapid.SampledFrom([][]string{{"label .+ is unknown"}, {"property .+ is not defined"}, {"invalid activity type"}, {"undefined configuration variable", "shell name"}, {"is not defined in", "missing input"}}).Draw(rt, "pathspats")
+				cfg += "paths:\n  .github/workflows/**/*.yml:\n    ignore:\n"
+				for _, p := range pats {
+					cfg += "      - '" + p + "'\n"
+				}
+			}
+			c.Files[repo+"/.github/actionlint.yaml"] = cfg
 		}
 		c.Files[repo+"/act/action.yml"] = fmt.Sprintf("name: act\ndescription: d\ninputs:\n  in_%s:\n    description: d\n    required: true\noutputs:\n  out_%s:\n    description: d\nruns:\n  using: node20\n  main: index.js\n", strings.ToLower(R), strings.ToLower(R))
 		c.Files[repo+"/act/index.js"] = ""
@@ -371,6 +381,10 @@ func genC10World(rt *rapid.T) (*c10Case, []string) {
 	}
 	c.Cwd = rapid.SampledFrom(append([]string{"", ""}, c.Repos...)).Draw(rt, "cwd")
 	c.Procs = rapid.SampledFrom([]int{1, 2, 4, 16}).Draw(rt, "procs")
+	// 0-8 -ignore patterns (most of them match nothing)
+	for i := rapid.SampledFrom([]int{0, 0, 1, 2, 3, 4, 5, 6, 7, 8}).Draw(rt, "nignore"); i > 0; i-- {
+		c.Ignore = append(c.Ignore, rapid.SampledFrom([]string{"zz-matches-nothing", "^never-[0-9]+$", "zz other", "scope .+ is unknown", "nothing at all"}).Draw(rt, "ignorepat"))
+	}
 	c.Repeats = 2
 	return c, allFeats
 }
@@ -378,7 +392,7 @@ func genC10World(rt *rapid.T) (*c10Case, []string) {
 func TestC10(t *testing.T) {
 	race := os.Getenv("VERIF_RACE") != ""
 	hx.Main(t, "C10", func(r *hx.Run) {
-		r.Rule = "temporary worlds with 1-3 repositories (names may share a prefix: repo, repo2, repo-x, or differ only in letter case; optionally nested) and optional files outside any repository; every repository has its own configuration (self-hosted labels, config-variables), a well-formed local action and a well-formed reusable workflow; 2-10 workflow files using the own/other repository's labels and variables, the local action, the reusable workflow (callee part of the invocation or not), invalid activity types and undefined configuration variables (messages that format shared tables). Argument lists: random subsets and orders, relative / ./ / absolute spellings, cwd = world root or a repository root, GOMAXPROCS 1/2/4/16. Oracle: (1) per-file diagnostics of LintFiles(list) = LintFile(file) on a fresh linter; (2) fingerprint of all built-in tables (verif hook) unchanged; (3) the same property under the race detector. Non-trivial = >= 2 files with diagnostics, or caller+callee, or two repositories in one invocation; distinct = case hash."
+		r.Rule = "temporary worlds with 1-3 repositories (names may share a prefix: repo, repo2, repo-x, or differ only in letter case; optionally nested) and optional files outside any repository; every repository has its own configuration (self-hosted labels, config-variables, optionally per-path ignore patterns), the invocation 0-8 -ignore patterns, a well-formed local action and a well-formed reusable workflow; 2-10 workflow files using the own/other repository's labels and variables, the local action, the reusable workflow (callee part of the invocation or not), invalid activity types and undefined configuration variables (messages that format shared tables). Argument lists: random subsets and orders, relative / ./ / absolute spellings, cwd = world root or a repository root, GOMAXPROCS 1/2/4/16. Oracle: (1) per-file diagnostics of LintFiles(list) = LintFile(file) on a fresh linter; (2) fingerprint of all built-in tables (verif hook) unchanged; (3) the same property under the race detector. Non-trivial = >= 2 files with diagnostics, or caller+callee, or two repositories in one invocation; distinct = case hash."
 		r.Assumptions = []string{"referenced local actions and reusable workflows are well-formed (as the statement requires)", "interleavings are sampled (GOMAXPROCS, repetition, many files), not enumerated; the race detector only sees executed paths"}
 		n := hx.N(220, 3000)
 		if race {
